@@ -222,15 +222,15 @@ Proof.
   intros H x Hx. specialize (H (fun y => elem_eqb y x)).
   assert (0 < cnt (fun y => elem_eqb y x) l').
   { eapply in_cnt_pos; eauto. apply elem_eqb_eq; auto. }
-  destruct (cnt_pos_in _ l) as (y & Hy & E); [lia|]. apply elem_eqb_eq in E; subst; auto.
+  destruct (cnt_pos_in (fun y => elem_eqb y x) l) as (y & Hy & E); [lia|]. apply elem_eqb_eq in E; subst; auto.
 Qed.
 
 Lemma hpop_incl h e h' : hpop h = Some (e, h') -> In e h /\ incl h' h.
 Proof.
   intros H. split.
   - pose proof (hpop_cnt (fun y => elem_eqb y e) h e h' H) as C.
-    assert (E : elem_eqb e e = true) by (apply elem_eqb_eq; auto). rewrite E in C. simpl in C.
-    destruct (cnt_pos_in _ h) as (y & Hy & E'); [lia|]. apply elem_eqb_eq in E'; subst; auto.
+    assert (E : elem_eqb e e = true) by (apply elem_eqb_eq; auto). cbv beta in C. rewrite E in C. simpl in C.
+    destruct (cnt_pos_in (fun y => elem_eqb y e) h) as (y & Hy & E'); [lia|]. apply elem_eqb_eq in E'; subst; auto.
   - apply in_of_cnt. intros p. rewrite (hpop_cnt p h e h' H). lia.
 Qed.
 
@@ -244,9 +244,9 @@ Proof.
   intros H. pose proof (hpush_cnt (fun z => elem_eqb z y) h x) as C.
   assert (0 < cnt (fun z => elem_eqb z y) (hpush h x)).
   { eapply in_cnt_pos; eauto. apply elem_eqb_eq; auto. }
-  destruct (elem_eqb x y) eqn:E.
+  cbv beta in C. destruct (elem_eqb x y) eqn:E.
   - apply elem_eqb_eq in E; auto.
-  - simpl in C. destruct (cnt_pos_in _ h) as (z & Hz & E'); [lia|]. apply elem_eqb_eq in E'; subst; auto.
+  - simpl in C. destruct (cnt_pos_in (fun z => elem_eqb z y) h) as (z & Hz & E'); [lia|]. apply elem_eqb_eq in E'; subst; auto.
 Qed.
 
 Lemma index_of_spec e : forall h i, index_of e h = Some i -> i < length h /\ eid (nth i h dflt) = e.
